@@ -179,7 +179,9 @@ class TriAvg(PowderScheme):
         triweights = np.average(weights[tris], axis=1)
         y = np.zeros(x.shape)
 
-        dx = np.array([-x[1] + x[0], x[1] - x[0]])
+        # Bin edges around each point of the axis, whichever way it runs
+        dx = abs(x[1] - x[0])
+        dx = np.array([-dx, dx])
         rects = np.repeat(dx[None, :] / 2.0, len(y), axis=0) + x[:, None]
 
         # Make a matrix of 5-arrays (first 3 are tri, latter 2 are rect)
